@@ -2,6 +2,8 @@ import FqModel.Codec
 import Proofs.C14Codec
 import Proofs.C14Text
 import FqModel.C14Hash
+import FqModel.C14Json
+import Proofs.C14Json
 /-!
   C14 — property theorems about the models of fq's conversion functions (FqModel/Codec.lean).
   Every theorem quantifies over ALL inputs (no length bound).  Helper lemmas: Proofs/C14*.lean.
@@ -100,6 +102,36 @@ example : toUtf16 true true [] = [] := by decide
 theorem utf8_roundtrip (s : List Char) : fromUtf8 (toUtf8 s) = s := fromUtf8_toUtf8 s
 
 example : toUtf8 "é€😀".toList = [0xC3, 0xA9, 0xE2, 0x82, 0xAC, 0xF0, 0x9F, 0x98, 0x80] := by decide
+
+
+/-! ## JSON text (stretch): `tojson | fromjson` on the null/bool/integer/string/array/object
+    fragment.  `Canon v`: no float placeholder, object keys strictly increasing (a Go map has
+    neither order nor duplicates; colorjson prints keys sorted).  All integers (big ones too), all
+    unicode strings (escaping of quotes, backslash, C0 controls, DEL), any nesting depth. -/
+
+theorem json_roundtrip (v : Json.JV) (h : Proofs.C14J.Canon v) : Json.parse (Json.encode v) = .ok v [] :=
+  Proofs.C14J.parse_encode v h
+
+/-- a string literal is read back exactly whatever follows it (the per-string core of the above) -/
+theorem json_string_roundtrip (s rest : List Char) :
+    Json.parseStringBody ((s.flatMap Json.escapeChar ++ '"' :: rest).length + 1)
+      (s.flatMap Json.escapeChar ++ '"' :: rest) [] = .ok s rest :=
+  Proofs.C14J.string_literal s rest
+
+/-- an integer literal is read back exactly when followed by a delimiter -/
+theorem json_int_roundtrip (i : Int) (rest : List Char) (h : Proofs.C14J.NumSafe rest) :
+    Json.parseNumber (Json.encodeInt i ++ rest) = .ok (some i) rest :=
+  Proofs.C14J.parseNumber_encodeInt i rest h
+
+example : Proofs.C14J.Canon
+    (.obj [("a".toList, .arr [.num (-1), .str "x\"\n".toList, .null]), ("b".toList, .obj []), ("é".toList, .bool true)]) := by
+  simp [Proofs.C14J.Canon, Proofs.C14J.CanonL, Proofs.C14J.CanonM, Json.ltKey]
+example : Proofs.C14J.NumSafe ",1]".toList := Proofs.C14J.numSafe_comma _
+example : Json.encode (.obj [("a".toList, .arr [.num (-12), .str "x\"\n\u007f".toList, .null])])
+    = "{\"a\":[-12,\"x\\\"\\n\\u007f\",null]}".toList := by decide/- The parser's behaviour on text the encoder never produces (duplicate keys: last wins; lone `\u`
+   surrogates: U+FFFD; trailing data, leading zeros, trailing commas: error) is not stated as
+   kernel-evaluated examples (the kernel is too slow on the fuel-driven parser); it is pinned by
+   corpus/C14/json.witness.ops against the real `fromjson` on every run. -/
 
 /-! ## hash functions: the references of FqModel/C14Hash.lean (written from RFC 1321 / FIPS 180-4,
     SHA-2 constants computed from the primes) reproduce the published test vectors.  These are
